@@ -56,8 +56,14 @@ def find_cmp(ctx, roles_wanted, ops, within=None):
     return None
 
 
-def flip_cmp(ctx, site, new_op):
+STRICTNESS = {'Gt': 'Ge', 'Ge': 'Gt', 'Lt': 'Le', 'Le': 'Lt'}
+ALL_OPS = tuple(STRICTNESS)
+
+
+def flip_cmp(ctx, site, new_op=None):
+    """default: toggle the strictness of the comparison (an off-by-one at the boundary whatever way the test is written)"""
     body, bi, si, op = site
+    new_op = new_op or STRICTNESS[op]
 
     def edit(js):
         js['blocks'][bi]['stmts'][si]['rv']['bin'] = new_op
@@ -117,48 +123,48 @@ def _in_adt(adt):
 
 def plant_overflow_off_by_one(ctx):
     """sync global: `order.len() > limit` becomes `>=`"""
-    s = find_cmp(ctx, ('LEN_QUEUE', 'LIMIT'), ('Gt', 'Lt'), within=lambda b: N.GLOBAL in b.name)
+    s = find_cmp(ctx, ('LEN_QUEUE', 'LIMIT'), ALL_OPS, within=lambda b: N.GLOBAL in b.name)
     if s is None:
         return None
-    return flip_cmp(ctx, s, 'Ge' if s[3] == 'Gt' else 'Le')
+    return flip_cmp(ctx, s)
 
 
 def plant_async_overflow_off_by_one(ctx):
     """async: `cache.len() >= limit` becomes `>`"""
-    s = find_cmp(ctx, ('LEN_STORE', 'LIMIT'), ('Ge', 'Le'), within=lambda b: N.ASYNC in b.name)
+    s = find_cmp(ctx, ('LEN_STORE', 'LIMIT'), ALL_OPS, within=lambda b: N.ASYNC in b.name)
     if s is None:
         return None
-    return flip_cmp(ctx, s, 'Gt' if s[3] == 'Ge' else 'Lt')
+    return flip_cmp(ctx, s)
 
 
 def plant_expiry_off_by_one(ctx):
     """`age >= ttl` becomes `age > ttl` in the sync entry"""
-    s = find_cmp(ctx, ('AGE_SECS', None), ('Ge', 'Le'), within=lambda b: 'cache_entry' in b.name)
+    s = find_cmp(ctx, ('AGE_SECS', None), ALL_OPS, within=lambda b: 'cache_entry' in b.name)
     if s is None:
         return None
-    return flip_cmp(ctx, s, 'Gt' if s[3] == 'Ge' else 'Lt')
+    return flip_cmp(ctx, s)
 
 
 def plant_oversize_off_by_one(ctx):
     """`size > max_memory` becomes `>=` in one flavour"""
-    s = find_cmp(ctx, ('NEW_SIZE', 'MAX_MEM'), ('Gt', 'Lt'))
+    s = find_cmp(ctx, ('NEW_SIZE', 'MAX_MEM'), ALL_OPS)
     if s is None:
         return None
-    return flip_cmp(ctx, s, 'Ge' if s[3] == 'Gt' else 'Le')
+    return flip_cmp(ctx, s)
 
 
 def plant_fifo_pops_newest(ctx):
-    """one `pop_front` of the order queue in the sync global cache becomes `pop_back`"""
-    s = find_call(ctx, N.VD + 'pop_front', lambda b: N.GLOBAL in b.name)
+    """one `pop_front` of the order queue becomes `pop_back`"""
+    s = find_call(ctx, N.VD + 'pop_front', lambda b: True)
     if s is None:
         return None
     return rename_call(ctx, s, 'pop_back')
 
 
 def plant_hit_counted_as_miss(ctx):
-    """one `record_hit` in the sync global lookup becomes `record_miss`"""
+    """one `record_hit` of a lookup becomes `record_miss`"""
     HIT = 'cachelito_core::stats::CacheStats::record_hit'
-    s = find_call(ctx, HIT, lambda b: N.GLOBAL in b.name)
+    s = find_call(ctx, HIT, lambda b: b.name != HIT)
     if s is None:
         return None
     return rename_call(ctx, s, 'record_miss')
@@ -166,10 +172,10 @@ def plant_hit_counted_as_miss(ctx):
 
 def plant_async_expiry_off_by_one(ctx):
     """`age >= ttl` becomes `age > ttl` in the async lookup"""
-    s = find_cmp(ctx, ('AGE_SECS', 'TTL'), ('Ge', 'Le'), within=lambda b: N.ASYNC in b.name)
+    s = find_cmp(ctx, ('AGE_SECS', 'TTL'), ALL_OPS, within=lambda b: N.ASYNC in b.name)
     if s is None:
         return None
-    return flip_cmp(ctx, s, 'Gt' if s[3] == 'Ge' else 'Lt')
+    return flip_cmp(ctx, s)
 
 
 def plant_lfu_picks_most_used(ctx):
@@ -184,3 +190,25 @@ def plant_lfu_picks_most_used(ctx):
                 if st['k'] == 'assign' and 'bin' in st['rv'] and st['rv']['bin'] in FLIP:
                     return flip_cmp(ctx, (body, bi, si, st['rv']['bin']), FLIP[st['rv']['bin']])
     return None
+
+
+def each_cmp(ctx, pred):
+    """[(label, altered ctx)] - one per ordered comparison in cachelito-core whose role pair satisfies pred(ra, rb), with its
+    strictness toggled.  Sites are found by role only (not by function name or operator), so the plant survives renames,
+    extracted helpers and negated / swapped formulations."""
+    R = Roles(ctx.prog)
+    out = []
+    for body in sorted(ctx.core.bodies.values(), key=lambda b: b.id):
+        if not any(st['k'] == 'assign' and 'bin' in st['rv'] and st['rv']['bin'] in ALL_OPS for bl in body.blocks for st in bl['stmts']):
+            continue
+        for (bi, si, op, ra, rb, a, b, dst) in R.comparisons(body):
+            if op in ALL_OPS and pred(ra, rb):
+                out.append(('%s %s %s in %s' % (ra, op, rb, body.name.rsplit('::', 2)[-2] + '::' + body.name.rsplit('::', 1)[-1]), flip_cmp(ctx, (body, bi, si, op))))
+    return out
+
+
+def expect_each_fires(run, rule_id, what, plants, rule_fn, *args):
+    if not plants:
+        expect_fires(run, rule_id, what, None, rule_fn, *args)
+    for label, c2 in plants:
+        expect_fires(run, rule_id, '%s: %s' % (what, label), c2, rule_fn, *args)
